@@ -251,7 +251,40 @@ def box_summary(tier, seed):
             "leaf_kernels_run_on_fenced_buffers": {t: ["%dx%d" % mn for mn in LEAF[t]] for t in LEAF},
             "element_types": RTYPES}
 
+def kernel_stage(v):
+    """X2: the intrinsic leaf kernels of the current tree, translated to Lean, must be the proved snapshot (or prove afresh)"""
+    from props import c14_kernels
+    with core.Scratch() as wd:
+        try:
+            r = c14_kernels.check_against_snapshot(core.REPO, core.ISA_FLAGS, core.LEAN, wd)
+        except Exception as e:       # a source the translator cannot even read
+            r = {"status": "untranslatable", "problems": [repr(e)[:300]], "kernels": [], "failed": []}
+    v.cov["kernel_translation"] = {"status": r["status"], "kernels": len(r["kernels"]), "names": r["kernels"],
+                                   "failed": r["failed"], "problems": r["problems"][:5]}
+    if r["status"] == "changed-failed":
+        v.violation("kernel-proof " + ",".join(r["failed"])[:160],
+                    {"kind": "proof-obligation", "failed": r["failed"], "output": r.get("output", ""),
+                     "note": "the intrinsic transposition kernel(s) named here, translated from the current source, no longer realise the "
+                             "transposition lane map / stay inside the matrices; the real-type runs of this check give the failing input"}, nofail=True)
+    elif r["status"] == "untranslatable":
+        v.violation("kernel-untranslatable " + "; ".join(r["problems"])[:160],
+                    {"kind": "proof-obligation", "problems": r["problems"],
+                     "note": "the kernel source changed into something the translator does not cover, so the kernel theorems do not speak about it"}, nofail=True)
+
 def run(tier, seed):
+    orig = core.proof_stage
+    def staged(v, pid, thorough=False, regen=None):
+        ok, info = orig(v, pid, thorough=thorough, regen=regen)
+        if info.get("build_ok"):
+            kernel_stage(v)
+        return ok, info
+    core.proof_stage = staged
+    try:
+        return run_inner(tier, seed)
+    finally:
+        core.proof_stage = orig
+
+def run_inner(tier, seed):
     return flow.standard_run(
         PID, tier, seed, "Fastor.C14.permute_correct", "FastorModel.Model.Permute / FastorModel.Model.Transpose", sym_groups, oracle_groups,
         assumptions=["the index pack of permute/permutation is a permutation of 0..rank-1 (hypothesis of the theorems; the harness only generates such packs)",
